@@ -309,7 +309,23 @@ func TestC18Decorator(t *testing.T) {
 				if kind == "Get" {
 					b = ba.Get(ctx, d)
 				} else {
-					b = ba.GetFromComposite(ctx, d, d, sliceNothing{})
+					// The child digest may carry another instance name. The
+					// data that is read is the parent's, so the parent's name
+					// decides; a denied parent must never reach the back end,
+					// whatever the child's name is allowed to do.
+					child := d
+					if rapid.Bool().Draw(t, "childOtherInstance") {
+						childName := rapid.SampledFrom(names).Draw(t, "childName")
+						child = hx.Sha(childName, data)
+						c.Add("child", childName)
+						if childName != name {
+							c.Class("composite_child_under_other_instance_name")
+							if want != nil && auth.AuthorizeSingleInstanceName(ctx, authz["get"], child.GetInstanceName()) == nil {
+								c.Class("composite_parent_denied_child_allowed")
+							}
+						}
+					}
+					b = ba.GetFromComposite(ctx, d, child, sliceNothing{})
 				}
 				got, err := b.ToByteSlice(1000)
 				callsSeen := log.Snapshot()
